@@ -57,11 +57,22 @@ def coq_op(o):
     }[k]()
 
 
+INDEX_OPS = ("get", "set", "idx", "idxset", "setfirst")
+
+
+def wire(o):
+    """harness line form of one op: the harness parses i64 and casts the index `as usize`, so an index at or above
+    2^63 travels as its two's-complement negative (usize::MAX = -1); the Coq side receives the true value"""
+    if o[0] in INDEX_OPS and o[1] >= 2 ** 63:
+        return [o[0], o[1] - 2 ** 64] + list(o[2:])
+    return o
+
+
 def build(item, ops=None):
     it = dict(item)
     if ops is not None:
         it["ops"] = ops
-    ops_txt = " , ".join(" ".join(str(t) for t in o) for o in it["ops"])
+    ops_txt = " , ".join(" ".join(str(t) for t in wire(o)) for o in it["ops"])
     ops_coq = "[" + "; ".join(coq_op(o) for o in it["ops"]) + "]"
     if it["kind"] == "B":
         it["line"] = f"B {it['store']} {it['start']} {it['len']} {' '.join(map(str, it['data']))} ; {ops_txt}"
@@ -74,7 +85,8 @@ def build(item, ops=None):
 
 def rand_op(rng, kind, cap, fresh):
     name = rng.choice(B_OPS if kind == "B" else F_OPS)
-    idx = lambda: rng.choice([0, 1, max(0, cap - 1), cap, cap + 1, rng.below(2 * cap + 2), rng.below(cap + 1)])
+    idx = lambda: rng.choice([0, 1, max(0, cap - 1), cap, cap + 1, rng.below(2 * cap + 2), rng.below(cap + 1),
+                              rng.below(2 * cap + 2), rng.below(cap + 1), 2 ** 64 - 1 - rng.below(2 * cap + 2)])
     if name in ("push",):
         return [name, fresh()]
     if name in ("get", "idx", "setfirst"):
@@ -152,6 +164,27 @@ def gen_cases(rng, tier):
         for kind in (5, 6, 7):
             items.append(build(dict(kind="F", store=kind, first=0, data=data,
                                     ops=[["len"], ["iter"], ["push", 7], ["get", 0], ["iter"], ["slices"]])))
+    # 1c. indices up to usize::MAX from every valid state (defect F9: `first + index` overflowed in Fixed::get;
+    #     Bounded must answer None / panic "index out of range" without computing start + index)
+    U = 2 ** 64
+    for cap in range(1, 6):
+        data = [10 * (i + 1) for i in range(cap)]
+        huge = sorted({U - 1 - j for j in range(0, 2 * cap + 2)} | {2 ** 63 - 1, 2 ** 63, 2 ** 63 + 1, 2 ** 32, 2 ** 62 + cap}
+                      | {U - cap * k for k in (1, 2, 3)})
+        for first in range(0, cap):
+            for chunk in (huge[:len(huge) // 2], huge[len(huge) // 2:]):
+                ops = [["get", i] for i in chunk] + [["idx", i] for i in chunk[:4]]
+                ops += [["set", chunk[0], 91], ["iter"], ["idxset", chunk[-1], 92], ["iter"], ["setfirst", chunk[1]], ["iter"],
+                        ["get", chunk[2]]]
+                items.append(build(dict(kind="F", store=store % 5, first=first, data=data, ops=ops)))
+                store += 1
+        for start in range(0, cap):
+            for ln in range(0, cap + 1):
+                for i in huge[-3:] + [2 ** 63, 2 ** 32]:
+                    for m in (["get", i], ["set", i, 93], ["idx", i], ["idxset", i, 94]):
+                        items.append(build(dict(kind="B", store=store % 5, start=start, len=ln, data=data,
+                                                ops=[m, ["iter"], ["len"]])))
+                        store += 1
     n_exh = len(items)
     # 2. random histories from random raw states
     n_rand = 1500 if tier == "quick" else 30000
@@ -430,7 +463,7 @@ def finish(rep, info, n, nontriv, dist, samples, bad=()):
         "checker_cmd": "translate/ring2coq.py /repo/dasp_ring_buffer/src/lib.rs > coq/gen/RingGen.v; make -f Makefile.coq props/C06.vo (coqc 8.16.1, full .vo) + Print Assumptions audit",
         "trusted_base": F.TRUSTED_COMMON + ["axioms: none (every theorem of props/C06.v is closed under the global context)",
                                            "translate/ring2coq.py (Rust method bodies -> Gallina: evaluation order, control flow, state threading) and the vocabulary Ring/RingPrim.v it translates into; validated through the correspondence of the (proved equal) hand model",
-                                           "modelled, not verified: Rust slices as lists, &mut [T] as an (offset, length) range and &mut T as an index into self.data, usize as nat (no index near 2^64), mem::replace/ptr::read/ptr::write as list updates; the caller-side glue of Ring/RingGenGlue.v (store through a returned reference, visiting an IterMut, draining)"],
+                                           "modelled, not verified: Rust slices as lists, &mut [T] as an (offset, length) range and &mut T as an index into self.data, mem::replace/ptr::read/ptr::write as list updates; the caller-side glue of Ring/RingGenGlue.v (store through a returned reference, visiting an IterMut, draining); usize as nat in the refinement theorems and in the generated model, with the 64-bit reading of every index addition proved free of overflow in valid states for indices up to usize::MAX (c06_index_arith_no_overflow), slice lengths assumed <= 2^63 (true of every non-zero-sized element type)"],
         "theorems": th, "axioms_reported": info.get("axioms", []),
         "translator": info.get("translator", {}), "translator_tie_broken": info.get("broken"), "search": info.get("search"),
         "evaluations": n, "distinct_nontrivial": nontriv,
@@ -438,7 +471,7 @@ def finish(rep, info, n, nontriv, dist, samples, bad=()):
         "samples": samples, "input_distribution": dist, "disagreements": len(bad),
         "explanation": "theorems: refinement of the model to the ideal queue/delay line for all capacities, states and histories, and equality of every method regenerated from the source with the hand model's on all inputs; ties: the model regenerated by the translator on this run (proved equal), and the model's executable definitions run by coqc on the same cases as the real crate, all observations compared exactly",
     }
-    return rep.finish("proof", cov, ["Rust slices are modelled as lists and usize as unbounded nat",
+    return rep.finish("proof", cov, ["Rust slices are modelled as lists; usize as unbounded nat in the refinement, machine reading of the index additions in Ring/IndexArith.v (slice length <= 2^63)",
                                     "the translator is faithful (validated by the correspondence, not proved)",
                                     "the harness observes through the public API only (from_raw_parts gives arbitrary raw states)"])
 
